@@ -326,6 +326,12 @@ func (vc *VC) selectInstr(x *ssa.Select, st *State) {
 				vc.heapKeySort("#waited", B)
 				ch := vc.val(s.Chan).S
 				vc.heapWrite(st, "#waited", B, ch, ite(eq(idx, ar.ix(int64(i))), "true", vc.heapRead(st, "#waited", B, ch)))
+				// a non-blocking select that took its default branch has polled the channel and found
+				// nothing to receive (polledopen)
+				if !x.Blocking {
+					vc.heapKeySort("#polled", B)
+					vc.heapWrite(st, "#polled", B, ch, ite(eq(idx, ar.ix(-1)), "true", vc.heapRead(st, "#polled", B, ch)))
+				}
 			}
 		} else {
 			vc.selectSendHook(s.Chan, s.Send, eq(idx, ar.ix(int64(i))), st, x.Pos())
